@@ -468,7 +468,7 @@ func makeTypeSizeConstFilter(src, varname string, op token.Token, rhsValue const
 		if list := asExprSlice(params.subNode(varname)); list != nil {
 			return exprListFilterApply(src, list.GetExprSlice(), func(x ast.Expr) bool {
 				typ := params.typeofNode(x)
-				if isTypeParam(typ) {
+				if !hasKnownSize(typ) {
 					return false
 				}
 				lhsValue := constant.MakeInt64(params.ctx.Sizes.Sizeof(typ))
@@ -477,7 +477,7 @@ func makeTypeSizeConstFilter(src, varname string, op token.Token, rhsValue const
 		}
 
 		typ := params.typeofNode(params.subExpr(varname))
-		if isTypeParam(typ) {
+		if !hasKnownSize(typ) {
 			return filterFailure(src)
 		}
 		lhsValue := constant.MakeInt64(params.ctx.Sizes.Sizeof(typ))
@@ -492,7 +492,7 @@ func makeTypeSizeFilter(src, varname string, op token.Token, rhsVarname string) 
 	return func(params *filterParams) matchFilterResult {
 		lhsTyp := params.typeofNode(params.subExpr(varname))
 		rhsTyp := params.typeofNode(params.subExpr(rhsVarname))
-		if isTypeParam(lhsTyp) || isTypeParam(rhsTyp) {
+		if !hasKnownSize(lhsTyp) || !hasKnownSize(rhsTyp) {
 			return filterFailure(src)
 		}
 		lhsValue := constant.MakeInt64(params.ctx.Sizes.Sizeof(lhsTyp))
